@@ -22,7 +22,9 @@ TRUSTED = [
     "string comparison of canonical results",
     "the parser model Parse/*.v underneath derived_parse (tied to clap_builder by the parse-area checks and by every dparse/dround/dupdate case here)",
     "syn/quote/rustc macro expansion and attribute parsing (item.rs push_attrs, heck casing): only the expansion's behaviour on the corpus is compared",
-    "modelled not verified: EnumValueParser inside the parser (VPString stand-in + enum_ok check), ArgMatches::valid_args bookkeeping",
+    "EnumValueParser is modelled by the parser model's PossibleValuesParser over the kept variants' possible values (equal language: "
+    "C15_enum_parse_ref_language; kind of the rejection of a non-UTF-8 string differs, canonicalised in the dparse projection); "
+    "not modelled: ArgMatches::valid_args bookkeeping",
 ]
 ASSUMPTIONS = [
     "clap_derive feature unstable-v5 (Vec<Vec<T>> support) is on for the corpus; clap_builder is built without it",
@@ -488,15 +490,20 @@ def dparse_nontrivial(case, impl):
 
 
 def dparse_project(r):
-    """Ok(value) / Err: the error kind of a failed parse is C10's business (and the enum stand-in of the model can
-    order InvalidValue differently); kinds of extraction errors after a successful command parse are kept."""
+    """Ok(value) / Err kind.  Since round 5 the generated argument of a value-enum field carries the real
+    EnumValueParser in the model too (VPPossible over the kept variants), so the KIND of a failed parse is compared as
+    well; the one documented divergence is canonicalised: a non-UTF-8 string is InvalidValue for EnumValueParser and
+    InvalidUtf8 for the PossibleValuesParser standing for it (theorem C15_enum_parse_ref_language)."""
     p = parts(r)
     if "try" not in p:
         return r
     t, c, f = p["try"], p["cmd"], p.get("fam", ["fam", "skipped"])
     if c[1] == "ok":
         return r
-    return "(try err) (cmd err)" if (t[1] == "err" and c[1] == "err") else r
+    if t[1] == "err" and c[1] == "err":
+        canon = lambda k: "InvalidValue" if k == "InvalidUtf8" else k
+        return "(try err %s) (cmd err %s)" % (canon(t[2]) if len(t) > 2 else "?", canon(c[2]) if len(c) > 2 else "?")
+    return r
 
 
 # ---- dround
@@ -626,6 +633,26 @@ def gen_dupdate(tier, rng):
                 if rng.random() < 0.85:
                     a = subset_argv(a, SUB_NAMES, rng)
                 argvs.append(a)
+            out.append(case_line("dupdate", s, sx_str(v0), *[argv_sx(a) for a in argvs]))
+    # directed: an optional flatten that is ALREADY Some, updated from lines naming a strict subset of its members
+    # (gen_updater's Some arm: update in place -- the unnamed members keep their values, the flatten stays Some)
+    for s in DC.TOPS:
+        idx = [k for k, n in enumerate(s.nodes) if isinstance(n, Flatten) and n.opt]
+        if not idx:
+            continue
+        for _ in range(per * 3):
+            v0 = None
+            for _try in range(40):
+                c = gen_value(s, rng)
+                if all(c[1 + k] != "none" for k in idx):
+                    v0 = c
+                    break
+            if v0 is None:
+                break
+            argvs = []
+            for _ in range(rng.choice([1, 2])):
+                a = print_value(s, gen_value(s, rng))
+                argvs.append([t for t in a if rng.random() < 0.4])
             out.append(case_line("dupdate", s, sx_str(v0), *[argv_sx(a) for a in argvs]))
     return out
 
@@ -874,7 +901,7 @@ LEVEL_TEXT = ("Machine-checked theorems (Coq 8.16, closed under the global conte
               "exactly when the command does not declare the requiredness (witness: required = false on a plain field); and "
               "for every well-formed invocation of the update command of a struct of argument fields, a field whose argument "
               "has no default and no occurrence ON THE LINE keeps its value under try_update_from; the command-line phase accepts "
-              "the printed line when every printed group passes the built argument's own count check and value parser.  Round 3: the phases after the token loop accept that state -- the defaults phase succeeds (any command whose defaults pass their value parser), the validator is complete for commands without relations (any command of class norel, through C03's static completeness), hence parse(print v) = Ok v as an EQUALITY (derived_parse d (bin :: print d v) = PValue v) for structs of option fields whose required fields are printed; and for ALL argv: a walk of get_matches_with parametric in the state predicate, the invariant that stored value groups are non-empty (any command), hence extraction cannot fail after a successful command parse and try_parse succeeds <=> the command's parse succeeds, for every struct of argument fields (options and positionals) and flattened structs (any nesting, optional or not; generated command in closed form) in which each plain field is required or has a default (through C04's typed invariant, C03's validator soundness and C06's precedence); and for every token list, a field whose argument has no default and is named by no token (C10's occurs: key-map selection) keeps its value under try_update_from; the generated command of any struct of fields and flattened structs, positionals included, lies in C02's class conv and its key map is the derive input's (the k-th positional field in declaration order resolves from index k); and parse(print v) = Ok v as an equality for structs of positional fields (T, Option<T>, a last Vec<T>; the line `-- v1 v2 ..` through C02's trailing-values theorem) when an absent positional is followed only by absent ones.  The model is tied to clap_derive by compiling a corpus spanning the shape x kind x type x "
+              "the printed line when every printed group passes the built argument's own count check and value parser.  Round 3: the phases after the token loop accept that state -- the defaults phase succeeds (any command whose defaults pass their value parser), the validator is complete for commands without relations (any command of class norel, through C03's static completeness), hence parse(print v) = Ok v as an EQUALITY (derived_parse d (bin :: print d v) = PValue v) for structs of option fields whose required fields are printed; and for ALL argv: a walk of get_matches_with parametric in the state predicate, the invariant that stored value groups are non-empty (any command), hence extraction cannot fail after a successful command parse and try_parse succeeds <=> the command's parse succeeds, for every struct of argument fields (options and positionals) and flattened structs (any nesting, optional or not; generated command in closed form) in which each plain field is required or has a default (through C04's typed invariant, C03's validator soundness and C06's precedence); and for every token list, a field whose argument has no default and is named by no token (C10's occurs: key-map selection) keeps its value under try_update_from; the generated command of any struct of fields and flattened structs, positionals included, lies in C02's class conv and its key map is the derive input's (the k-th positional field in declaration order resolves from index k); and parse(print v) = Ok v as an equality for structs of positional fields (T, Option<T>, a last Vec<T>; the line `-- v1 v2 ..` through C02's trailing-values theorem) when an absent positional is followed only by absent ones.  Round 5: a derived ValueEnum field's parser in the model is the real EnumValueParser (the parser model's possible-values parser over the non-skipped variants, hidden ones included, under the argument's ignore_case; the stand-in and the separate enum check are gone from derived_parse): its language is exactly the domain of ValueEnum::from_str and of C04's parse_ref model; names and aliases of hidden variants are accepted and read as their variant (and the parser that filters hidden variants first is refuted); nothing a kept variant does not claim is accepted and nothing is read as a skipped variant; names <-> kept variants is a bijection modulo aliases; the generated argument carries that parser coherently, so C04's stored-value theorems apply to derived fields; every successful parse of the generated command stores only enum names for enum fields (all argv); and parse(print v) = Ok v for enum-typed fields of every option shape; default_action gives SetTrue exactly for a field declared bool (Option<bool> / Option<Option<bool>> are Set with the bool parser and no default), structs of such fields round-trip with no hypothesis on the value, and for ALL argv a field whose argument has no default and is named by no token comes back with its absent value (None for Option<T>, Option<bool> included; the empty vector for Vec<T>); and try_update_from on an Option<flattened struct> that is already Some updates the members in place: for all argv a member without default that no token names keeps its value and the flatten stays Some (lookup through present optional flattens), also along every sequence of updates; and for all argv an Option<flattened struct> none of whose members is named by a token parses to None.  The model is tied to clap_derive by compiling a corpus spanning the shape x kind x type x "
               "attribute matrix with the real macro and comparing command dumps, parses, round trips, update sequences "
               "and value-enum lookups against the extracted model (which runs on top of the parser model) on every check; "
               "an independent python oracle checks the property's statements on the implementation's output.")
